@@ -215,6 +215,32 @@ def h_dispatch(m):
             "the result is not hashlib.new(<mapped name>, utf8(text)).hexdigest()")
 
 
+def h_dispatch_twice(m):
+    """the verdict on an algorithm name does not depend on an earlier call with the same name: an unknown name raises
+    ValueError the second time as well (a cache of resolved algorithms must not be filled before validation)"""
+    mod = m.mod(SP)
+    adv = _advertised()
+    name = m.sstr("A", NAME_CAP[0], small=8)
+    text = m.ostr("T")
+    is_adv = _or(*[name == a for a in adv])
+    saved_h, saved_r = mod.hashlib, mod.rabin_fingerprint
+    mod.hashlib = _Recorder()
+    mod.rabin_fingerprint = lambda d: "rabin"
+    try:
+        try:
+            mod.fingerprint(text, name)
+        except ValueError:
+            pass
+        try:
+            mod.fingerprint(text, name)
+        except ValueError:
+            m.prove("dispatch.second_call.unknown_raises", z3.Not(is_adv), "an advertised algorithm name raised ValueError on the second call")
+            return
+    finally:
+        mod.hashlib, mod.rabin_fingerprint = saved_h, saved_r
+    m.prove("dispatch.second_call.unknown_raises", is_adv, "a name outside the advertised set did not raise ValueError on the second call")
+
+
 TEXT_CAP = [3]
 
 
@@ -270,10 +296,13 @@ def run(run, tier):
     r = E1Runner(run)
     E2E_MAX[0] = 2 if tier == "thorough" else 1
     r.check(h_init, "rabin", expect=["init"])
-    r.check(h_step, "rabin", expect=["step"], timeout_ms=600000)
-    r.check(h_end2end, "rabin", expect=["end2end"], timeout_ms=600000)
+    tmo = 120000 if tier == "quick" else 600000
+    bud = 150 if tier == "quick" else 1200
+    r.check(h_step, "rabin", expect=["step"], timeout_ms=tmo, budget_s=bud)
+    r.check(h_end2end, "rabin", expect=["end2end"], timeout_ms=tmo, budget_s=bud)
     r.check(h_dispatch, "fingerprint", expect=["dispatch.unknown_raises", "dispatch.rabin", "dispatch.hashlib"])
-    r.check(h_twice, "rabin", expect=["second_call"], timeout_ms=600000)
+    r.check(h_twice, "rabin", expect=["second_call"], timeout_ms=tmo, budget_s=bud)
+    r.check(h_dispatch_twice, "fingerprint", expect=["dispatch.second_call.unknown_raises"], budget_s=bud)
     TEXT_CAP[0] = 4 if tier == "thorough" else 3
     r.check(h_dispatch_text, "fingerprint", expect=["dispatch.payload_is_utf8_of_text"])
     run.bounds += ["rabin: init + one step from an arbitrary 64-bit state and arbitrary byte + output formatting "
